@@ -54,6 +54,7 @@ type QCfg struct {
 	// notification faults (distributed)
 	NDelay int `json:"ndelay,omitempty"` // max delay in time units
 	NDup   int `json:"ndup,omitempty"`   // percent duplicated
+	NSync  bool `json:"nsync,omitempty"` // the backend runs the callbacks synchronously inside Enqueue under the lock that also guards Len and the dequeues
 	NOther int `json:"nother,omitempty"` // percent of dequeues that are announced too (action "dequeued")
 }
 
